@@ -3,7 +3,26 @@ Import ListNotations.
 From BB Require Import BN Brute SpaceFacts TrapFacts PercolateFacts AttractorFacts Diagram Invariants Checks Filter
   Strict PetriNet Control Meta FilterFacts PetriNetFacts TrappistFacts DiagramStruct DiagramSem1 DiagramCache
   DiagramDepth DiagramComplete Termination ControlFacts MetaFacts Candidates StrictFacts MinExpandFacts CandidatesFacts SymbolicTest SymbolicTestFacts Signed ReductionFacts ControlFacts2 Main Blocks BlocksFacts ObsFacts OwnerFacts CandidatesTerm
-  PartialOwner BlockMath BlockComplete ASeeds ASeedsFacts LogChecks SkipRule SkipRuleFacts Names NamesFacts Perm PermFacts SCC SCCFacts SCCStruct ControlFacts3 SCCTerm FilterSym Main2 StrategyFacts ControlFacts4 PyLib PySrc PySrcFacts SkipRuleFacts2 SCCComplete SCCAttr BlockComplete2 ControlFacts5 Iso SkipSem ControlFacts6."""
+  PartialOwner BlockMath BlockComplete ASeeds ASeedsFacts LogChecks SkipRule SkipRuleFacts Names NamesFacts Perm PermFacts SCC SCCFacts SCCStruct ControlFacts3 SCCTerm FilterSym Main2 StrategyFacts ControlFacts4 SkipRuleFacts2 SCCComplete SCCAttr BlockComplete2 ControlFacts5 Iso SkipSem ControlFacts6."""
+
+# modules of the translator tie: imported only by the properties that restate theorems about generated code, so that a
+# change of the translated Python text breaks the proof obligations of exactly these properties
+PY_SPACE = "PyLib PySrcBase PySrc PySrcFacts"            # space_utils.is_subspace / intersect
+PY_KEY = "PyLib PySrcBase PySrcKey PySrcKeyFacts"         # space_utils.space_unique_key
+PY_PLACE = "PyLib PySrcBase PySrcPlace PySrcPlaceFacts"   # petri_net_translation.variable_to_place / place_to_variable
+PY_SD = "PyLib PyLibSd PySrcSd PySrcSdFacts"
+EXTRA_IMPORTS = {"C06": PY_SPACE, "C10": PY_PLACE, "C20": PY_KEY}
+
+def imports_for(pid):
+    extra = EXTRA_IMPORTS.get(pid)
+    return IMPORTS + ("\nFrom BB Require Import " + extra + "." if extra else "")
+
+def imports_all():
+    mods = []
+    for v in EXTRA_IMPORTS.values():
+        for m in v.split():
+            if m not in mods: mods.append(m)
+    return IMPORTS + ("\nFrom BB Require Import " + " ".join(mods) + "." if mods else "")
 
 EX_NET = """
 (* non-vacuity: two bistable switches; x0'=x1, x1'=x0, x2'=x3, x3'=x2 *)
